@@ -400,6 +400,9 @@ def check(modname, argv):
     mq, sq, idx = [], [], []
     for i, d in enumerate(descs):
         m = mod.model(d)
+        if m is None and hasattr(mod, "model_after"):
+            # a model query that depends on what the implementation did (e.g. recorded outputs of an external signer)
+            m = mod.model_after(d, impl_out[i][0])
         s = mod.spec(d) if hasattr(mod, "spec") else None
         for kind, q in (("m", m), ("s", s)):
             if q is None:
@@ -421,6 +424,8 @@ def check(modname, argv):
                 model_out[i] = "|".join(mres[mi:mi + k]); mi += k
             else:
                 spec_out[i] = "|".join(sres[si:si + k]); si += k
+    if hasattr(mod, "post_impl"):
+        impl_out = [(mod.post_impl(d, io), oo) for d, (io, oo) in zip(descs, impl_out)]
     if hasattr(mod, "post"):
         model_out = [None if o is None else mod.post(d, o) for d, o in zip(descs, model_out)]
         spec_out = [None if o is None else mod.post(d, o) for d, o in zip(descs, spec_out)]
